@@ -593,15 +593,30 @@ func c17OtherLinks(c *vlib.Ctx, r *vlib.Rand) {
 	}
 	// LinuxSLL: type(2) arphrd(2) alen(2) addr(8) proto(2)
 	alen := r.Intn(9)
+	if r.Chance(1, 3) {
+		alen = []int{9, 15, 16, 17, 20, 255, 256, 65535}[r.Intn(8)] // a declared length beyond the 8 address bytes the header holds
+	}
 	sll := make([]byte, 16)
-	sll[5] = byte(alen)
+	sll[4], sll[5] = byte(alen>>8), byte(alen)
 	addr := r.Bytes(8)
 	copy(sll[6:14], addr)
 	sll[14], sll[15] = 0x08, 0x00
+	sll = append(sll, r.Bytes(r.Intn(40))...) // whatever follows the header is not an address
 	p = gopacket.NewPacket(sll, layers.LayerTypeLinuxSLL, gopacket.Default)
 	if l, ok := p.Layer(layers.LayerTypeLinuxSLL).(*layers.LinuxSLL); ok {
-		f := l.LinkFlow()
-		if !bytes.Equal(f.Src().Raw(), addr[:alen]) {
+		var f gopacket.Flow
+		if pi := vlib.Guard(func() { f = l.LinkFlow() }); pi != nil {
+			c.Violation("E6-flow-panics:linuxsll", fmt.Sprintf("LinkFlow of a decoded SLL header (declared address length %d) panicked: %s", alen, pi.Value), hex.EncodeToString(sll))
+			return
+		}
+		want := []byte(l.Addr) // the property ties the flow to the layer's own address field
+		if len(want) > gopacket.MaxEndpointSize {
+			want = want[:gopacket.MaxEndpointSize]
+		}
+		if !bytes.Equal(f.Src().Raw(), want) {
+			c.Violation("E6-flow-addresses:linuxsll-field", fmt.Sprintf("SLL flow src %x != the layer's Addr %x (declared length %d)", f.Src().Raw(), want, alen), hex.EncodeToString(sll))
+		}
+		if alen <= 8 && !bytes.Equal(f.Src().Raw(), addr[:alen]) {
 			c.Violation("E6-flow-addresses:linuxsll", fmt.Sprintf("SLL flow src %x != address on the wire %x", f.Src().Raw(), addr[:alen]), hex.EncodeToString(sll))
 		}
 		if f.Reverse().FastHash() != f.FastHash() || f.Reverse().Reverse() != f {
